@@ -2,7 +2,7 @@
 pub struct Diag { }
 pub type ParseResult<T> = Result<T, Diag>;
 #[derive(Clone, Copy, PartialEq, Eq, Structural)]
-pub enum TokenKind { Semicolon, LeftBrace, Else, If, Other }
+pub enum TokenKind { Semicolon, LeftBrace, Else, If, Identifier, Colon, Equal, Other }
 #[derive(Clone, Copy)]
 pub struct Token { pub k: TokenKind, pub id: u64 }
 pub struct Expr { pub id: u64 }
@@ -15,7 +15,13 @@ pub enum Else { If(Box<If>), Block(Block) }
 pub struct If { pub cond: Expr, pub body: Block, pub else_body: Option<Else> }
 impl If { pub fn new(cond: Expr, body: Block, else_body: Option<Else>) -> (r: If) ensures r.cond == cond, r.body == body, r.else_body == else_body { If { cond, body, else_body } } }
 #[verifier::external_body] pub fn verif_unreachable<T>() -> T requires false { unimplemented!() }
+pub struct Type { pub id: u64 }
+pub struct Let { pub name: Token, pub type_: Option<Type>, pub value: Option<Expr> }
+impl Let { pub fn new(name: Token, type_: Option<Type>, value: Option<Expr>) -> (r: Let) ensures r.name == name, r.type_ == type_, r.value == value { Let { name, type_, value } } }
+pub enum Symbol { Let(Let), Other }
+impl Token { pub fn clone(&self) -> (r: Token) ensures r == *self { *self } }
 pub struct Parser {
+  pub let_name: Option<Token>,
   pub fun_kind: FunKind,
   pub previous: Token,
   pub current: Token,
@@ -31,16 +37,29 @@ pub struct Parser {
 impl Parser {
   /// consume the current token if it is of this kind
   #[verifier::external_body] pub fn match_kind(&mut self, kind: TokenKind) -> (r: ParseResult<bool>)
-    ensures final(self).fun_kind == old(self).fun_kind, final(self).exprs == old(self).exprs, final(self).semis == old(self).semis, final(self).blocks == old(self).blocks,
+    ensures final(self).fun_kind == old(self).fun_kind, final(self).exprs == old(self).exprs, final(self).semis == old(self).semis, final(self).blocks == old(self).blocks, final(self).let_name == old(self).let_name,
       r matches Ok(b) ==> b == (old(self).current.k == kind) && final(self).matched@ == (if b { old(self).matched@.push(kind) } else { old(self).matched@ }) { unimplemented!() }
   #[verifier::external_body] pub fn expr(&mut self) -> (r: ParseResult<Expr>)
-    ensures final(self).fun_kind == old(self).fun_kind, final(self).semis == old(self).semis, final(self).blocks == old(self).blocks, final(self).matched == old(self).matched,
+    ensures final(self).fun_kind == old(self).fun_kind, final(self).semis == old(self).semis, final(self).blocks == old(self).blocks, final(self).matched == old(self).matched, final(self).let_name == old(self).let_name,
       r matches Ok(e) ==> final(self).exprs@ == old(self).exprs@.push(e) { unimplemented!() }
   #[verifier::external_body] pub fn consume_basic(&mut self, kind: TokenKind, message: &str) -> (r: ParseResult<()>)
-    ensures final(self).fun_kind == old(self).fun_kind, final(self).exprs == old(self).exprs, final(self).blocks == old(self).blocks, final(self).matched == old(self).matched,
+    ensures final(self).fun_kind == old(self).fun_kind, final(self).exprs == old(self).exprs, final(self).blocks == old(self).blocks, final(self).matched == old(self).matched, final(self).let_name == old(self).let_name,
       r is Ok ==> final(self).semis@ == old(self).semis@ + (if kind == TokenKind::Semicolon { 1nat } else { 0nat }) { unimplemented!() }
   #[verifier::external_body] pub fn error<T>(&mut self, message: &str) -> (r: ParseResult<T>)
     ensures r is Err, final(self).fun_kind == old(self).fun_kind { unimplemented!() }
+  /// demand a token of this kind: it becomes `previous`
+  #[verifier::external_body] pub fn consume(&mut self, kind: TokenKind, message: &str) -> (r: ParseResult<()>)
+    ensures final(self).fun_kind == old(self).fun_kind, final(self).exprs == old(self).exprs, final(self).semis == old(self).semis, final(self).blocks == old(self).blocks,
+      final(self).matched == old(self).matched, final(self).let_name == old(self).let_name,
+      r is Ok ==> old(self).current.k == kind && final(self).previous == old(self).current { unimplemented!() }
+  #[verifier::external_body] pub fn type_(&mut self) -> (r: ParseResult<Type>)
+    ensures final(self).fun_kind == old(self).fun_kind, final(self).exprs == old(self).exprs, final(self).semis == old(self).semis, final(self).blocks == old(self).blocks,
+      final(self).matched == old(self).matched, final(self).let_name == old(self).let_name { unimplemented!() }
+  /// self.let_name.replace(t)
+  #[verifier::external_body] pub fn verif_replace_let_name(&mut self, t: Token) -> (r: Option<Token>)
+    ensures final(self).fun_kind == old(self).fun_kind, final(self).exprs == old(self).exprs, final(self).semis == old(self).semis, final(self).blocks == old(self).blocks,
+      final(self).matched == old(self).matched, final(self).previous == old(self).previous, final(self).current == old(self).current,
+      final(self).let_name == Some(t), r == old(self).let_name { unimplemented!() }
   #[verifier::external_body] pub fn error_current<T>(&mut self, message: &str) -> (r: ParseResult<T>) ensures r is Err { unimplemented!() }
   #[verifier::external_body] pub fn block(&mut self, block_return: BlockReturn) -> (r: ParseResult<Block>)
     ensures final(self).fun_kind == old(self).fun_kind, final(self).exprs == old(self).exprs, final(self).semis == old(self).semis, final(self).matched == old(self).matched,
